@@ -64,7 +64,8 @@ class TokenScheduler:
     """ Only the thread holding the token runs.  Every 'line' event inside ampycloud/*.py counts; when a
     thread reaches one of its pre-emption points it hands the token to the next unfinished thread. """
 
-    def __init__(self, nthreads, preempt, srcdir):
+    def __init__(self, nthreads, preempt, srcdir, hot=()):
+        self.hot = set(hot)           # names of functions in which EVERY line pre-empts
         self.cv = threading.Condition()
         self.token = 0
         self.n = nthreads
@@ -107,7 +108,7 @@ class TokenScheduler:
         def local(frame, event, arg):
             if event == 'line':
                 self.count[i] += 1
-                if self.count[i] in self.preempt[i]:
+                if self.count[i] in self.preempt[i] or frame.f_code.co_name in self.hot:
                     self.pass_token(i)
             return local
 
@@ -127,7 +128,7 @@ def run_threads(job):
         descs, n = job['chunks'], job['nstages']
         solo = [alone(d, n) for d in descs]
         srcdir = os.path.dirname(ampycloud.__file__)
-        sch = TokenScheduler(len(descs), job['preempt'], srcdir)
+        sch = TokenScheduler(len(descs), job['preempt'], srcdir, hot=job.get('hot', ()))
         recs = [tracer.Recorder(d) for d in descs]
         errs = []
 
